@@ -111,40 +111,46 @@ def obs_key(cfg_key, obs):
     return hashlib.sha1((cfg_key + json.dumps(obs, sort_keys=True)).encode()).hexdigest()
 
 
-def mc_module(workdir, name, cfg, prop, keep_obs=True):
-    extra = (f'Beh == Finished => PrintT(<<"BEH", ToJson([script |-> script, obs |-> obs, '
-             f'w |-> PropsOf("{prop}", CFGv, obs)])>>)')
-    tlc.write_mc(workdir, name, cfg, invariants=["Beh"], extra_defs=extra, keep_obs=keep_obs,
+def mc_module(workdir, name, cfgs, prop, keep_obs=True):
+    extra = (f'Beh == Finished => PrintT(<<"BEH", ToJson([ci |-> ci, script |-> script, obs |-> obs, '
+             f'w |-> PropsOf("{prop}", CFG, obs)])>>)')
+    tlc.write_mc(workdir, name, cfgs, invariants=["Beh"], extra_defs=extra, keep_obs=keep_obs,
                  extends=("Callbag", "CallbagProps"), print_beh=False)
 
 
-def run_family(prop, name, cfg, rand_cfg, binary, seed, tier, tlc_workers=3, rand_count=200,
+def run_family(prop, name, cfgs, rand_cfg, binary, seed, tier, tlc_workers=3, rand_count=200,
                env_extra=None, dfs=True):
-    """returns a dict with everything the report needs"""
+    """One scenario family = one TLC run over a batch of scenario cfgs (usually one).
+    returns a dict with everything the report needs"""
+    if isinstance(cfgs, dict):
+        cfgs = [cfgs]
     wd = os.path.join(WORK, f"{prop}_{name}")
     shutil.rmtree(wd, ignore_errors=True)
     os.makedirs(wd)
-    res = dict(name=name, fam=cfg["fam"])
+    res = dict(name=name, fam=cfgs[0]["fam"], scenarios=len(cfgs))
     t0 = time.time()
     # (1)+(2) TLC: all behaviours of the model within the bounds, each judged by the predicate
     mc = "MC_" + name
-    mc_module(wd, mc, cfg, prop)
+    mc_module(wd, mc, cfgs, prop)
     rc, out, dt = tlc.run_tlc(wd, mc, workers=tlc_workers, timeout=3000)
     if not tlc.tlc_ok(rc, out):
         raise ToolError(f"TLC failed on model configuration {name}:\n" + tlc.error_excerpt(out, 60))
     gen, dist, depth = tlc.parse_stats(out)
     beh = tlc.parse_tagged(out, "BEH")
     res.update(tlc_s=dt, states=dist, transitions=gen, depth=depth, behaviours=len(beh))
-    cfg_key = json.dumps(cfg, sort_keys=True)
+    cfg_keys = [json.dumps(c, sort_keys=True) for c in cfgs]
+    key_ix = {k: i for i, k in enumerate(cfg_keys)}
     # (a)(b)(c) the real code: replay every model behaviour, enumerate by DFS, random at larger bounds
     scen_file = os.path.join(wd, "scen.ndjson")
     with open(scen_file, "w") as f:
         for i, b in enumerate(beh):
-            f.write(json.dumps({"id": f"{name}.m{i}", "fam": cfg["fam"], "cfg": cfg, "drive": "replay",
+            c = cfgs[b["ci"] - 1]
+            f.write(json.dumps({"id": f"{name}.m{i}", "fam": c["fam"], "cfg": c, "drive": "replay",
                                 "script": b["script"]}) + "\n")
         if dfs:
-            f.write(json.dumps({"id": f"{name}.d", "fam": cfg["fam"], "cfg": cfg, "drive": "dfs",
-                                "limit": max(4 * len(beh), 20000)}) + "\n")
+            for j, c in enumerate(cfgs):
+                f.write(json.dumps({"id": f"{name}.d{j}", "fam": c["fam"], "cfg": c, "drive": "dfs",
+                                    "limit": max(4 * len(beh), 20000)}) + "\n")
         if rand_cfg is not None and rand_count > 0:
             f.write(json.dumps({"id": f"{name}.r", "fam": rand_cfg["fam"], "cfg": rand_cfg, "drive": "rand",
                                 "seed": seed, "count": rand_count}) + "\n")
@@ -154,9 +160,11 @@ def run_family(prop, name, cfg, rand_cfg, binary, seed, tier, tlc_workers=3, ran
     res["harness_s"] = time.time() - th
     # comparison model <-> code
     verdict = {}           # obs_key -> witnesses (from the model run: same predicate, same obs)
+    model_scripts = {}
     for b in beh:
-        verdict[obs_key(cfg_key, b["obs"])] = b["w"]
-    model_scripts = {json.dumps(b["script"]): b for b in beh}
+        ck = cfg_keys[b["ci"] - 1]
+        verdict[obs_key(ck, b["obs"])] = b["w"]
+        model_scripts[(b["ci"] - 1, json.dumps(b["script"]))] = b
     drift = []
     replayed = dfs_n = rand_n = 0
     dfs_scripts = set()
@@ -174,14 +182,14 @@ def run_family(prop, name, cfg, rand_cfg, binary, seed, tier, tlc_workers=3, ran
             k = obs_key(ck, r["obs"])
             r["_k"] = k
             traces.append(r)
-            if ".m" in rid and rid.startswith(name + ".m"):
+            if rid.startswith(name + ".m"):
                 replayed += 1
-                b = beh[int(rid.split(".m")[-1])]
+                b = beh[int(rid[len(name) + 2:])]
                 if r["obs"] != b["obs"] or r["script"] != b["script"]:
                     drift.append(dict(kind="replay_differs", id=rid, script=b["script"]))
             elif rid.startswith(name + ".d"):
                 dfs_n += 1
-                sk = json.dumps(r["script"])
+                sk = (key_ix[ck], json.dumps(r["script"]))
                 dfs_scripts.add(sk)
                 mb = model_scripts.get(sk)
                 if mb is None:
@@ -195,7 +203,7 @@ def run_family(prop, name, cfg, rand_cfg, binary, seed, tier, tlc_workers=3, ran
     if dfs and not truncated:
         for sk in model_scripts:
             if sk not in dfs_scripts:
-                drift.append(dict(kind="model_behaviour_not_in_code", script=json.loads(sk)))
+                drift.append(dict(kind="model_behaviour_not_in_code", script=json.loads(sk[1])))
     res.update(replayed=replayed, dfs=dfs_n, rand=rand_n, drift=len(drift), drift_samples=drift[:3],
                dfs_equals_model=(dfs and not truncated and not any(d["kind"] != "replay_differs" for d in drift)),
                dfs_truncated=truncated)
